@@ -276,6 +276,7 @@ func checkC02(c *Ctx) {
 		ruleR23(c, dv, at, "R2.3")
 		ruleR24(c, dv, at, "R2.4")
 	}
+	c.importRules(configIntactRules, []string{"R3.7"}, "R2.8") // the mapping a press/release is resolved through is the parsed one
 	c.MinCount("R2.1", 3)
 	c.MinCount("R2.3", 14)
 	c.MinCount("R2.4", 12)
@@ -428,6 +429,7 @@ func checkC03(c *Ctx) {
 	ruleCounterInit(c, dv, "R3.3d")
 	c.importRules(transportRules, []string{"R15.1", "R15.2"}, "R3.6") // the per-mode emission must arrive as emitted: relays forward every message exactly once, unaltered
 	ruleR16(c, dv, modes, "R3.5")
+	ruleConfigCopyIntact(c, dv, "R3.7")
 	c.MinCount("R3.1", 6)
 	c.MinCount("R3.2", 7)
 	c.DecidedClause("per collision mode, the exact emission sequence of every path of NoteOn (off/retrigger: [On]; no_repeat: held->[] else [On]; interrupt: held->[Off,On] else [On]) and NoteOff (off: [Off]; managed: last holder->[Off] else [])")
@@ -703,4 +705,113 @@ func countedLoopRange(v ssa.Value) (lo, hi int64, ok bool) {
 		return init.Int64(), hi, true
 	}
 	return
+}
+
+// ruleConfigCopyIntact: R3.7 the mode NoteOn/NoteOff consult is the configured one: the device's own copy of the parsed
+// configuration is assigned once, as a whole, from the configuration handed to NewDevice, and no function of the device
+// package stores into a field of it afterwards (a "smart" downgrade of collision_mode, a default patched in at run time).
+func ruleConfigCopyIntact(c *Ctx, dv *dev, rule string) {
+	cfgField := dv.fields["config"]
+	if cfgField == nil {
+		c.Undec(rule, "device.Device.config/assigned-once-from-the-parsed-configuration", "-", "Device.config not found")
+		return
+	}
+	// is addr inside Device.config (strictly below it: a field/element of it)?
+	var below func(addr ssa.Value, depth int) (inside, whole bool)
+	below = func(addr ssa.Value, depth int) (bool, bool) {
+		if depth > 8 {
+			return false, false
+		}
+		switch x := addr.(type) {
+		case *ssa.FieldAddr:
+			st := deref(x.X.Type()).Underlying().(*types.Struct)
+			if st.Field(x.Field) == cfgField {
+				return true, true
+			}
+			in, _ := below(x.X, depth+1)
+			return in, false
+		case *ssa.IndexAddr:
+			in, _ := below(x.X, depth+1)
+			return in, false
+		}
+		return false, false
+	}
+	wholes, bad := 0, ""
+	var badPos string
+	for _, fn := range c.P.Funcs {
+		top := topFunc(fn)
+		if top.Pkg == nil || top.Pkg.Pkg.Path() != pkgDevice {
+			continue
+		}
+		for _, b := range fn.Blocks {
+			for _, in := range b.Instrs {
+				st, ok := in.(*ssa.Store)
+				if !ok {
+					continue
+				}
+				inside, whole := below(st.Addr, 0)
+				if !inside {
+					continue
+				}
+				if whole {
+					wholes++
+					if top != dv.fn["NewDevice"] {
+						bad, badPos = "Device.config is replaced in "+shortFn(fn), c.P.Pos(st.Pos())
+					} else if !strings.Contains(NewFnView(c.P, fn).Term(st.Val).String(), "Config") || !derivesFromParam(st.Val) {
+						bad, badPos = "Device.config is not initialised from the configuration passed to NewDevice", c.P.Pos(st.Pos())
+					}
+					continue
+				}
+				bad, badPos = fmt.Sprintf("%s stores into a field of the device's copy of the parsed configuration (%s): what the device consults at run time (collision mode, mappings, defaults) is no longer what the file states", shortFn(fn), NewFnView(c.P, fn).Term(st.Addr)), c.P.Pos(st.Pos())
+			}
+		}
+	}
+	key := "device.Device.config/assigned-once-from-the-parsed-configuration"
+	if bad != "" {
+		c.Bad(rule, key, badPos, bad)
+		return
+	}
+	if wholes == 0 {
+		c.Undec(rule, key, "-", "no assignment of Device.config found")
+		return
+	}
+	c.OK(rule, key, c.P.Pos(dv.fn["NewDevice"].Pos()), fmt.Sprintf("%d whole assignment(s) in NewDevice from its parameter, no field store anywhere in package device", wholes))
+}
+
+// derivesFromParam: v is a parameter or a field/load chain rooted at one.
+func derivesFromParam(v ssa.Value) bool {
+	for i := 0; i < 8; i++ {
+		switch x := v.(type) {
+		case *ssa.Parameter:
+			return true
+		case *ssa.Field:
+			v = x.X
+		case *ssa.UnOp:
+			v = x.X
+		case *ssa.FieldAddr:
+			v = x.X
+		case *ssa.Alloc:
+			// a spilled parameter
+			for _, r := range *x.Referrers() {
+				if st, ok := r.(*ssa.Store); ok && st.Addr == ssa.Value(x) {
+					if _, isP := st.Val.(*ssa.Parameter); isP {
+						return true
+					}
+				}
+			}
+			return false
+		default:
+			return false
+		}
+	}
+	return false
+}
+
+// configIntactRules: R3.7 alone, for import by the properties whose behaviour is read from the device's configuration copy.
+func configIntactRules(c *Ctx) {
+	dv := newDev(c, "R3.0")
+	if !dv.ok || dv.fn["NewDevice"] == nil {
+		return
+	}
+	ruleConfigCopyIntact(c, dv, "R3.7")
 }
